@@ -105,6 +105,59 @@ void h_hash(void) {
                  replay=replaylib.replay_hash_ub)
 
 
+def c_hash_determinism_group(ctx):
+    """Bounded relational contract: equal bytes => equal hash, wherever the bytes live (alignment, neighbours)."""
+    cls = hash_fields(ctx)
+    ctor = extract_function(ctx, HASH_CPP, r'^  hash_t::hash_t\(\) \{', name='hash_t::hash_t()')
+    fn = extract_function(ctx, HASH_CPP, r'^  hash_t hash\(const void \*ptr, udim_t bytes\) \{',
+                          name='hash(const void*, udim_t)')
+    ctor_c = rewrite(ctor, [
+        ('C: constructor -> init function on explicit this', r'^  hash_t::hash_t\(\) \{', 'void hash_t_ctor(hash_t *this_) {', 1),
+        ('C: implicit member access -> this_->member', r'(?<![\w.>])(initialized|h|sh)\b(?=\s*(\[|=))', r'this_->\1', None),
+    ])
+    fn_c = rewrite(fn, [
+        ('C: signature', r'^  hash_t hash\(const void \*ptr, udim_t bytes\) \{', 'hash_t occa_hash(const void *ptr, udim_t bytes) {', 1),
+        ('drop unused std::stringstream local', r'^\s*std::stringstream ss;\n', '', '*'),
+        ('C: default construction made explicit', r'hash_t hash;', 'hash_t hash; hash_t_ctor(&hash);', 1),
+        ('C: global-namespace qualifier', r'(?<![\w>])::(memcpy|memset)\(', r'\1(', '*'),
+    ])
+    src = '''#include <stddef.h>
+#include <stdbool.h>
+#include <stdint.h>
+#include <string.h>
+typedef unsigned long udim_t;
+typedef struct hash_t { bool initialized; int h[8]; int sh[8]; } hash_t;
+%s
+%s
+#define MAXN 9
+unsigned long nondet_ulong(void); char nondet_char(void);
+void h_determinism(void) {
+  /* the same n bytes stored at two different places: different alignment, different neighbours */
+  static char A[MAXN + 16] __attribute__((aligned(8))), B[MAXN + 16] __attribute__((aligned(8)));
+  udim_t n = nondet_ulong(); const udim_t oa = OA, ob = OB;    /* placements enumerated, one group each */
+  __CPROVER_assume(n <= MAXN);
+  for (int i = 0; i < MAXN + 16; ++i) { A[i] = nondet_char(); B[i] = nondet_char(); }
+  for (udim_t i = 0; i < MAXN; ++i) if (i < n) B[ob + i] = A[oa + i];
+  hash_t x = occa_hash(A + oa, n), y = occa_hash(B + ob, n);
+  int j = 0; unsigned long jj = nondet_ulong(); __CPROVER_assume(jj < 8); j = (int) jj;
+  __CPROVER_assert(x.h[j] == y.h[j], "hashing equal bytes gives equal hashes wherever the bytes are stored (every word)");
+  __CPROVER_assert(x.initialized && y.initialized, "hash result is initialized");
+  /* sensitivity: a hash that ignores its input would satisfy the line above */
+  if (n == 1 && A[oa] != 0) { hash_t z = occa_hash(A + oa, 0); __CPROVER_assert(z.h[0] != x.h[0] || z.h[1] != x.h[1] || z.h[2] != x.h[2] || z.h[3] != x.h[3], "hashing one non-zero byte differs from hashing nothing"); }
+#ifdef CANARY
+  __CPROVER_assert(n < MAXN, "canary");
+#endif
+}
+''' % (ctor_c, fn_c)
+    return [Group(name='hash/equal-bytes-equal-hash/offsets=%d,%d' % (oa, ob), sources={'hashdet.c': src}, entry='h_determinism', lang='c',
+                  checks=['--bounds-check', '--pointer-check', '--div-by-zero-check', '--undefined-shift-check'],
+                  unwind=28, min_obligations=10, functions=[fn, ctor, cls], canary='CANARY', canary_label='canary',
+                  defines=['OA=%d' % oa, 'OB=%d' % ob], param='placement offsets %d / %d' % (oa, ob),
+                  strength='bounded', bound='buffers of <= 9 bytes placed at offsets %d and %d of two 8-aligned arrays' % (oa, ob), timeout=900,
+                  replay=replaylib.replay_hash_determinism)
+            for oa, ob in [(0, 1), (1, 2), (0, 3), (2, 0), (0, 4), (3, 5)]]
+
+
 # ---------------------------------------------------------- hash_t members, C++
 
 def cpp_unit(ctx):
@@ -297,7 +350,7 @@ extern "C" void h_operators() {
 
 
 def build(ctx):
-    groups = [c_hash_group(ctx)]
+    groups = [c_hash_group(ctx)] + c_hash_determinism_group(ctx)
     unit, fns = cpp_unit(ctx)
     src = unit + HARNESS
     for entry, mino in [('h_hexchar', 3), ('h_fullstring_roundtrip', 6), ('h_fullstring_injective', 2),
